@@ -133,18 +133,11 @@ func runNode(s *Script, path string, n *Node) {
 	}
 	// registration: pid, process group, parent
 	reg := fmt.Sprintf("%d %d %d\n", os.Getpid(), syscall.Getpgrp(), os.Getppid())
-	tmp := filepath.Join(s.Dir, path+".tmp")
+	name := fmt.Sprintf("%s-%d", path, os.Getpid())
+	tmp := filepath.Join(s.Dir, name+".tmp")
 	_ = os.WriteFile(tmp, []byte(reg), 0o600)
-	_ = os.Rename(tmp, filepath.Join(s.Dir, path+".pid"))
+	_ = os.Rename(tmp, filepath.Join(s.Dir, name+".pid"))
 
-	var kids []*exec.Cmd
-	for i := range n.Children {
-		c := exec.Command(Self(), argScript+filepath.Join(s.Dir, "script.json"), argNode+path+"."+strconv.Itoa(i))
-		c.Stdout, c.Stderr = os.Stdout, os.Stderr // children inherit the pipes; they close them themselves if told to
-		if err := c.Start(); err == nil {
-			kids = append(kids, c)
-		}
-	}
 	for _, name := range n.EchoEnv {
 		fmt.Fprintf(os.Stdout, "%s=%s\n", name, os.Getenv(name))
 	}
@@ -153,6 +146,14 @@ func runNode(s *Script, path string, n *Node) {
 		if null != nil {
 			_ = syscall.Dup2(int(null.Fd()), 1)
 			_ = syscall.Dup2(int(null.Fd()), 2)
+		}
+	}
+	var kids []*exec.Cmd
+	for i := range n.Children {
+		c := exec.Command(Self(), argScript+filepath.Join(s.Dir, "script.json"), argNode+path+"."+strconv.Itoa(i))
+		c.Stdout, c.Stderr = os.Stdout, os.Stderr // children inherit the pipes; they close them themselves if told to
+		if err := c.Start(); err == nil {
+			kids = append(kids, c)
 		}
 	}
 	for _, w := range n.Writes {
@@ -214,6 +215,9 @@ func Registered(dir string) []Member {
 		var m Member
 		if _, err := fmt.Sscanf(string(b), "%d %d %d", &m.Pid, &m.Pgid, &m.Ppid); err == nil {
 			m.Node = strings.TrimSuffix(e.Name(), ".pid")
+			if i := strings.LastIndex(m.Node, "-"); i > 0 {
+				m.Node = m.Node[:i]
+			}
 			out = append(out, m)
 		}
 	}
